@@ -40,17 +40,41 @@ func (w *World) timelineIdle() {
 	interval := time.Duration(2+scn(8)) * g
 	maxIdle := time.Duration(1+scn(20)) * g
 	// zero latency: all frames of a quick call share one instant, half a grid off the ticks
-	x := w.addNode(NodeOpts{Name: "x0", Service: "x", Host: "10.0.3.1", Port: 3000, Conn: w.connOptsBig(), MaxIdle: maxIdle, IdleInterval: interval})
-	x.Ch.Register(&echoHandler{w: w, n: x}, "echo")
+	// In a third of the runs the sweeping node is a RELAY: what keeps its connections from
+	// being idle is then relayed calls in flight (on both the caller's and the callee's link).
+	asRelay := scnChance(1, 3)
+	xo := NodeOpts{Name: "x0", Service: "x", Host: "10.0.3.1", Port: 3000, Conn: w.connOptsBig(), MaxIdle: maxIdle, IdleInterval: interval}
+	var spy *SpyRelayHost
+	if asRelay {
+		spy = &SpyRelayHost{w: w, name: "x0"}
+		xo.Relay = spy
+	}
+	x := w.addNode(xo)
+	if !asRelay {
+		x.Ch.Register(&echoHandler{w: w, n: x}, "echo")
+	}
 	t0 := time.Now() // the sweep ticker started inside NewChannel
 	ns := 1 + scn(4)
 	var servers []*Node
 	for i := 0; i < ns; i++ {
-		s := w.addNode(NodeOpts{Name: fmt.Sprintf("s%d", i), Service: "svc", Host: fmt.Sprintf("10.0.2.%d", i+1), Port: 5000 + i, Conn: w.connOptsBig()})
+		svcName := "svc"
+		if asRelay {
+			svcName = fmt.Sprintf("svc%d", i) // one service per callee: the route decides the link
+		}
+		s := w.addNode(NodeOpts{Name: fmt.Sprintf("s%d", i), Service: svcName, Host: fmt.Sprintf("10.0.2.%d", i+1), Port: 5000 + i, Conn: w.connOptsBig()})
 		s.Ch.Register(&echoHandler{w: w, n: s}, "echo")
 		servers = append(servers, s)
+		if asRelay {
+			spy.Add(svcName, s.HostPort)
+		}
 	}
-	w.describe("idle sweep interval=%v maxIdle=%v servers=%d", interval, maxIdle, ns)
+	var callers []*Node
+	if asRelay {
+		for i := 0; i < 1+scn(2); i++ {
+			callers = append(callers, w.addNode(NodeOpts{Name: fmt.Sprintf("c%d", i), Service: fmt.Sprintf("client%d", i), Host: fmt.Sprintf("10.0.4.%d", i+1), Conn: w.connOptsBig()}))
+		}
+	}
+	w.describe("idle sweep interval=%v maxIdle=%v servers=%d relay=%v", interval, maxIdle, ns, asRelay)
 	horizon := time.Duration(40+scn(60)) * g
 	type ev struct {
 		at   time.Duration
@@ -62,6 +86,9 @@ func (w *World) timelineIdle() {
 	n := 2 + scn(10)
 	for i := 0; i < n; i++ {
 		e := ev{at: time.Duration(scn(int(horizon/g)))*g + g/2, kind: scnPick(0, 0, 0, 1, 2, 2, 3, 4), srv: servers[scn(ns)]}
+		if asRelay {
+			e.kind = scnPick(0, 0, 1, 1, 2) // relayed quick call, relayed long call, ping from the relay
+		}
 		if e.kind == 1 || (e.kind == 4 && scnChance(2, 3)) {
 			// long calls: the request and the response are activity at two different instants
 			// (for an inbound call the READ comes first and the WRITE later)
@@ -78,6 +105,14 @@ func (w *World) timelineIdle() {
 			sleep(e.at - time.Since(t0))
 			switch e.kind {
 			case 0, 1:
+				if asRelay {
+					from := callers[scn(len(callers))]
+					r := w.newCall(CallSpec{From: from, To: x.HostPort, Service: "svc" + e.srv.Name[1:], Via: "relay x1", Timeout: 30 * time.Second, Delay: e.dur, Len3: scn(500), Rs2: -1, Rs3: -1})
+					recs = append(recs, r)
+					w.Call(r)
+					w.probe("C19.relayed-call")
+					break
+				}
 				r := w.newCall(CallSpec{From: x, To: e.srv.HostPort, Service: "svc", Via: "direct", Timeout: 30 * time.Second, Delay: e.dur, Len3: scn(500), Rs2: -1, Rs3: -1})
 				recs = append(recs, r)
 				w.Call(r)
